@@ -95,6 +95,38 @@ def core_patterns():
     return dedupe(out)
 
 
+def deep_patterns():
+    """Patterns whose interesting subjects are 4-5 characters long (narrow: few paths per subject length)."""
+    S, E = ("assert", "start"), ("assert", "end")
+    br = ("backref", 1)
+    out = [
+        # backreferences inside lookarounds, reached again after backtracking with a different capture
+        seq(S, grp(alt(A, seq(A, B))), nc(alt(seq(B, C), C)), look(True, False, br)),
+        seq(S, grp(q(A, 4)), q(A, 3), look(True, False, br), A),
+        seq(S, grp(alt(seq(A, B), A)), nc(alt(C, seq(B, C))), look(True, False, seq(br, B)), br, B, E),
+        seq(S, grp(alt(A, seq(A, B))), nc(alt(seq(B, C), C)), look(True, True, br), DOT),
+        seq(grp(alt(A, seq(A, B))), q(B, 2), look(False, True, seq(br, q(B, 2))), C),
+        seq(grp(alt(A, seq(A, A))), q(A, 3), look(False, False, seq(br, br)), B),
+        seq(S, grp(q(DOT, 4)), q(DOT, 3), look(True, False, br), DOT, E),
+        # captures made inside lookarounds within quantified bodies
+        q(nc(alt(seq(look(False, True, grp(A)), B), C)), 1),
+        seq(q(nc(look(False, True, grp(A))), 2), B),
+        q(nc(alt(seq(look(True, True, grp(A)), A), B)), 1),
+        seq(q(nc(look(True, True, grp(A))), 2), A),
+        q(nc(alt(seq(look(False, True, grp(A)), B), C)), (1, 2, True)),
+        q(nc(alt(seq(look(True, False, grp(A)), B), seq(grp(A), A))), (2, None, True)),
+        # nested optional groups under counted quantifiers
+        seq(q(nc(q(grp(B), 2)), (0, 2, True)), E),
+        seq(q(nc(q(grp(B), 2)), (1, 2, True)), E),
+        seq(q(grp(q(grp(B), 2)), (0, 2, True)), A),
+        q(nc(alt(q(grp(A), 2), B)), (0, 3, True)),
+        seq(q(nc(seq(q(grp(A), 2), q(grp(B), 2))), (2, 2, True)), C),
+        seq(q(nc(alt(grp(A), grp(B))), (0, 3, False)), C),
+        q(grp(alt(seq(grp(A), B), seq(A, grp(C)))), 1),
+    ]
+    return dedupe(out)
+
+
 def dedupe(xs):
     seen, out = set(), []
     for x in xs:
